@@ -27,6 +27,11 @@
 (*             (ExpRuns, block decomposition) to the exact oracle (ExpRows).             *)
 (* NextRuns    RunsSameSound: the run-length comparison decides equality of the           *)
 (*             denoted sequences, for every pair of encodings of short sequences.         *)
+(* NextLife    object lifetime: the caller derives a selection object from a handle and lets   *)
+(*             go of the handle (temporary, local of a helper, del, cycle + collector); the     *)
+(*             heap (outer handle -> inner reader <- selection object) with collection as an     *)
+(*             action; LifeRefines: every read through a held name is the read of a fresh        *)
+(*             handle.  Behaviours exported (LIFE) and replayed with real garbage collection.    *)
 (* NextCursor  the file cursor protocol of records.cpp (read_text_columns /         *)
 (*             read_binary_columns / read_binary_slice), one action per code step,  *)
 (*             over sequences of reads on one handle: whatever was read before, a   *)
@@ -47,6 +52,8 @@ CONSTANTS MaxN,        \* tables of 1..MaxN rows
           ScaleSteps,  \* strides of the scale slices
           ScaleThin,   \* 1 in ScaleThin of the scale cases of a large table is exported
           RunsMaxLen,  \* NextRuns: sequences over 0..2 of length <= RunsMaxLen
+          LifeN,       \* NextLife: table sizes
+          LifeLen,     \* NextLife: steps per behaviour (open, derive, reads, drop, collect)
           DoExport
 
 VARIABLES phase, n, rq, cq, opt,      \* NextCases
@@ -54,17 +61,20 @@ VARIABLES phase, n, rq, cq, opt,      \* NextCases
           pos, cur, job, out,         \* NextCursor
           hmode,                      \* NextHist: how the next column selection is drawn
           sc,                         \* NextScale: the scale case
-          xa, xb                      \* NextRuns: two short sequences
-ext  == <<hmode, sc, xa, xb>>
-vars == <<phase, n, rq, cq, opt, h, hist, pos, cur, job, out, hmode, sc, xa, xb>>
+          xa, xb,                     \* NextRuns: two short sequences
+          life                        \* NextLife: who holds / keeps alive what
+ext  == <<hmode, sc, xa, xb, life>>
+vars == <<phase, n, rq, cq, opt, h, hist, pos, cur, job, out, hmode, sc, xa, xb, life>>
 
 NoScale == [n |-> 0, rs |-> 0, nc |-> 0, rq |-> RAll, cq |-> CAll, parts |-> <<>>]
+NoLife == [hk |-> "none", n |-> 0, held |-> {}, alive |-> {}, iopen |-> FALSE, cq |-> CAll, steps |-> <<>>,
+           q |-> Req(RAll, CAll, "none"), o |-> Rejected]
 NoJob == [kind |-> "none", rows |-> <<>>, cols |-> <<>>, i |-> 0, j |-> 0, s |-> 0, e |-> 0, st |-> 0]
 
 Init == /\ phase = "start" /\ n = 0 /\ rq = RAll /\ cq = CAll /\ opt = "none"
         /\ h = HClose(HOpen(0)) /\ hist = <<>>
         /\ pos = 0 /\ cur = <<0, 0>> /\ job = NoJob /\ out = <<>>
-        /\ hmode = 1 /\ sc = NoScale /\ xa = <<>> /\ xb = <<>>
+        /\ hmode = 1 /\ sc = NoScale /\ xa = <<>> /\ xb = <<>> /\ life = NoLife
 
 \* ---- the bounded request space -----------------------------------------------------
 Bounds(k)  == ((-k - 2)..(k + 2)) \cup {None}
@@ -187,9 +197,9 @@ Enc(x, d) == IF Len(x) = 0 THEN {<<>>}
              ELSE UNION {{<<<<x[1], IF k = 1 THEN d ELSE x[2] - x[1], k>>>> \o R : R \in Enc(SubSeq(x, k + 1, Len(x)), d)}
                          : k \in {kk \in 1..Len(x) : IsArith(x, kk)}}
 ChooseXa == /\ phase = "start" /\ \E x \in ShortSeqs : xa' = x
-            /\ phase' = "xa" /\ UNCHANGED <<n, rq, cq, opt, h, hist, pos, cur, job, out, hmode, sc, xb>>
+            /\ phase' = "xa" /\ UNCHANGED <<n, rq, cq, opt, h, hist, pos, cur, job, out, hmode, sc, xb, life>>
 ChooseXb == /\ phase = "xa" /\ \E x \in ShortSeqs : xb' = x
-            /\ phase' = "xab" /\ UNCHANGED <<n, rq, cq, opt, h, hist, pos, cur, job, out, hmode, sc, xa>>
+            /\ phase' = "xab" /\ UNCHANGED <<n, rq, cq, opt, h, hist, pos, cur, job, out, hmode, sc, xa, life>>
 NextRuns == ChooseXa \/ ChooseXb
 NextLaws == NextCases \/ NextRuns          \* the theorems of the spec in one run
 RunsSameSound == phase = "xab" =>
@@ -223,7 +233,7 @@ HistPickCols ==
        ELSE \E i \in (IF hmode = 4 THEN DOMAIN hist ELSE 1..VMin2(3, Len(hist))) :
                cq' = hist[i].cq /\ rq' = hist[i].rq /\ opt' = "again"
     /\ \E m \in 1..5 : hmode' = m
-    /\ phase' = "histrows" /\ UNCHANGED <<n, h, hist, pos, cur, job, out, sc, xa, xb>>
+    /\ phase' = "histrows" /\ UNCHANGED <<n, h, hist, pos, cur, job, out, sc, xa, xb, life>>
 
 HistPickRows ==
     /\ phase = "histrows"
@@ -277,7 +287,7 @@ ChooseScaleOf(Reqs(_, _)) ==
           /\ ScaleKeep(k, b, r, c)
           /\ sc' = [n |-> k, rs |-> b, nc |-> IF IsSmall(k) THEN NCols ELSE ScaleNc(b), rq |-> r, cq |-> c,
                     parts |-> IF r.k = "slice" THEN SliceBlocks(k, r, BlockRows(k, b)) ELSE <<>>]
-    /\ phase' = "scale" /\ UNCHANGED <<n, rq, cq, opt, h, hist, pos, cur, job, out, hmode, xa, xb>>
+    /\ phase' = "scale" /\ UNCHANGED <<n, rq, cq, opt, h, hist, pos, cur, job, out, hmode, xa, xb, life>>
 ChooseScale == ChooseScaleOf(ScaleSlices) \/ ChooseScaleOf(ScaleRuns) \/ ChooseScaleOf(ScaleLists)
 NextScale == ChooseScale
 
@@ -318,6 +328,65 @@ ExportScale == (DoExport /\ phase = "scale") =>
                   PrintT(<<"SCALE", ToJson([n |-> sc.n, rs |-> sc.rs, nc |-> sc.nc, rq |-> sc.rq, cq |-> sc.cq,
                                             parts |-> IF RowMode(sc.n, sc.rq) = "det" THEN sc.parts ELSE <<>>,
                                             mode |-> RowMode(sc.n, sc.rq)])>>)
+
+\* ---- NextLife: object lifetime (mechanism level) --------------------------------------------------------
+\* The caller opens a handle (name "h"), derives a selection object from it (name "v": h[columns]) and lets go
+\* of "h" while keeping "v": the handle was a temporary (`SFile(f)[cols][rows]`: "temp"), a local of a helper
+\* that returns the selection ("scope"), deleted ("del"), or deleted while part of a reference cycle ("cycle":
+\* it lives on until the collector runs - LCollect).  Property level (Select.tla: HLife): none of these steps
+\* is visible to a read through a selection object the caller still holds.
+\* Mechanism: the heap holds "outer" (an SFile) which owns "inner" (the Recfile that owns the file); a Recfile
+\* handle is "inner" alone.  A selection object keeps "inner" alive (RecfileColumnSubset.recfile).  An object
+\* nobody reaches is collected.  Dev: "finalizer_closes" (the outer object closes the inner reader when it is
+\* collected), "view_weak" (the selection object does not keep the reader alive).
+LifeRows(k) == {RAll, RScalar(-1), RList(<<k - 1, 0>>), RSlice(1, None, None), RSlice(None, None, 2)}
+\* while the handle is held a read is the ordinary case (NextSeq, NextHist): one request stands for all
+LifeRowsOf(l) == IF "h" \in l.held THEN {RList(<<l.n - 1, 0>>)} ELSE LifeRows(l.n)
+LifeCols    == {CName(2), CList(<<3, 1>>), CList(<<2>>)}
+LObjs(hk)   == IF hk = "SFile" THEN {"outer", "inner"} ELSE {"inner"}
+LReach(l, held) == (IF "h" \in held \/ "cyc" \in held THEN LObjs(l.hk) ELSE {})
+                   \cup (IF "v" \in held /\ "view_weak" \notin Dev THEN {"inner"} ELSE {})
+\* the caller's names become held; what nobody reaches is collected (and finalised)
+LSweep(l, held) ==
+    LET keep == l.alive \cap LReach(l, held)  gone == l.alive \ keep IN
+    [l EXCEPT !.held = held, !.alive = keep,
+              !.iopen = @ /\ "inner" \in keep /\ ~("outer" \in gone /\ "finalizer_closes" \in Dev)]
+LStep(l, st) == [l EXCEPT !.steps = Append(@, st)]
+LA(a)        == [a |-> a, via |-> "-", mode |-> "-", rq |-> RAll, cq |-> CAll]
+
+LOpen == /\ phase = "start"
+         /\ \E hk \in {"SFile", "Recfile"} : \E k \in LifeN :
+               life' = [NoLife EXCEPT !.hk = hk, !.n = k, !.held = {"h"}, !.alive = LObjs(hk), !.iopen = TRUE,
+                                      !.steps = <<LA("open")>>]
+         /\ phase' = "life" /\ UNCHANGED <<n, rq, cq, opt, h, hist, pos, cur, job, out, hmode, sc, xa, xb>>
+LDerive == /\ phase = "life" /\ Len(life.steps) < LifeLen /\ "h" \in life.held /\ "v" \notin life.held
+           /\ \E c \in LifeCols : life' = LStep([life EXCEPT !.held = @ \cup {"v"}, !.cq = c], [LA("derive") EXCEPT !.cq = c])
+           /\ UNCHANGED <<phase, n, rq, cq, opt, h, hist, pos, cur, job, out, hmode, sc, xa, xb>>
+LDrop == /\ phase = "life" /\ Len(life.steps) < LifeLen /\ {"h", "v"} \subseteq life.held
+         /\ \E m \in {"del", "scope", "temp", "cycle"} :
+               /\ m = "temp" => Len(life.steps) = 2                     \* open, derive: one expression
+               /\ life' = LStep(LSweep(life, (life.held \ {"h"}) \cup (IF m = "cycle" THEN {"cyc"} ELSE {})),
+                                [LA("drop") EXCEPT !.mode = m])
+         /\ UNCHANGED <<phase, n, rq, cq, opt, h, hist, pos, cur, job, out, hmode, sc, xa, xb>>
+LCollect == /\ phase = "life" /\ Len(life.steps) < LifeLen /\ "v" \in life.held
+            /\ life.steps[Len(life.steps)].a # "collect"
+            /\ life' = LStep(LSweep(life, life.held \ {"cyc"}), LA("collect"))
+            /\ UNCHANGED <<phase, n, rq, cq, opt, h, hist, pos, cur, job, out, hmode, sc, xa, xb>>
+LRead == /\ phase = "life" /\ Len(life.steps) < LifeLen
+         /\ \E via \in life.held \cap {"h", "v"} : \E r \in LifeRowsOf(life) :
+               LET q == Req(r, IF via = "v" THEN life.cq ELSE CAll, "none")
+                   o == IF "inner" \in life.alive /\ life.iopen THEN Index(life.n, q) ELSE Rejected
+               IN life' = LStep([life EXCEPT !.q = q, !.o = o], [LA("read") EXCEPT !.via = via, !.rq = r])
+         /\ UNCHANGED <<phase, n, rq, cq, opt, h, hist, pos, cur, job, out, hmode, sc, xa, xb>>
+NextLife == LOpen \/ LDerive \/ LDrop \/ LCollect \/ LRead
+
+LastIsRead == phase = "life" /\ life.steps[Len(life.steps)].a = "read"
+\* whoever else let go of what: a read through a name the caller holds is the read of a fresh handle
+LifeRefines == LastIsRead => Accept(life.n, life.q, life.o)
+LifeSane    == phase = "life" => life.held \cap {"h", "v"} # {} /\ life.alive \subseteq LObjs(life.hk)
+Dropped     == \E i \in DOMAIN life.steps : life.steps[i].a = "drop"
+ExportLife  == (DoExport /\ LastIsRead /\ Len(life.steps) = LifeLen /\ life.steps[LifeLen].via = "v" /\ Dropped) =>
+                  PrintT(<<"LIFE", ToJson([n |-> life.n, hk |-> life.hk, steps |-> life.steps])>>)
 
 \* ---- NextSeq: behaviours of one handle at property level ---------------------------------
 SeqRows(k) == {RAll, RScalar(0), RScalar(-1), RList(<<k - 1>>), RList(<<k - 1, 0>>), RList(<<k>>),
